@@ -200,6 +200,22 @@ Section S.
     && monotoneb f
     && Nat.eqb (last f 1) 0.
 
+  (* the operand's __bases__ as the property statement gives them (argument leaves; a class
+     specification's own bases; for a super specification the MRO remainder) *)
+  Definition sp_operand_bases (o : operand) : list node :=
+    match o with
+    | OArgs ts => flat_map sp_norm ts
+    | OSpec c => bases g c
+    | OSuper _ rem => rem
+    end.
+
+  (* "in resolution order", pinned exactly: the order Model/Ro.v defines for a specification with
+     these bases over the CURRENT graph -- the C3 merge of the bases' orders when it exists, else
+     the legacy order, Interface last (Properties/C03.v proves what that order is).  The other
+     conjuncts of sp_flat_ok are recomputed from scratch. *)
+  Definition sp_flat_exact (o : operand) (f : list node) : bool :=
+    lnat_eqb f (filter ifaceb (decl_sro g (sp_operand_bases o))).
+
   Definition sp_sub (a b : list node) : list node :=
     filter (fun i => negb (existsb (fun j => impliesb i j) b)) a.
 
@@ -257,6 +273,7 @@ Definition check_spec (c : case_t) : bool :=
   && all2 (fun o it => obsb_eqb o (map (fun x => memb x it) nodes)) (c_contains c) its
   && all2 (fun o it => obsb_eqb o (map (fun x => memb x it) (twin_nodes ifs))) (c_ctwin c) its
   && all2 (fun o it => is_some_true (sp_flat_ok g ifs it) o) (c_flat c) its
+  && all2 (fun o od => is_some_true (sp_flat_exact g ifs od) o) (c_flat c) (c_decls c)
   && all2 (fun row a => all2 (fun o b => obs_eqb o (sp_sub g a b)) row its) (c_sub c) its
   && all2 (fun row a => all2 (fun o b => obs_eqb o (sp_add g a b) || obs_eqb o (sp_add_worded g a b)) row its) (c_add c) its
   && all2 (fun '(x, o) a => is_some_true (fun r => nodupb r && same_set r (x :: a)) o) (c_radd c) its
